@@ -69,10 +69,13 @@ Inv_Retry ==
     /\ ~TamperRefusedBroken(Verdict2(c), Predict2(c).res)
     /\ Predict2(c).res = "ok" => /\ ConsensusValid(Fin2.tx) /\ FeeOk(Fin2.tx) /\ Exact(c, Fin2.tx)
                                  /\ ReservedExact(c, Fin2.a)
-\* the algebra says the genuine reply is fine: the retry must succeed - except in the one situation where the
-\* refused reply made lock_tx_context itself fail AFTER the selection was stored (late lock, a proof added to a
-\* send that asked for none): the context then names change outputs that were never written
-Dev_LateLockResidue == c.flow = "late" /\ "pp_add" \in {c.tamper, c.tamper2}
+\* the algebra says the genuine reply is fine: the retry must succeed - except where the refused reply made the
+\* LOCK itself fail after the selection had been stored (late lock; a proof added to a send that asked for none,
+\* or a reply without transaction whose kernel features cannot be built): the context then names change outputs
+\* that were never written.  Named deviation, a consequence of the known finding C07/ForeignOnlyAdds/finalize.
+Dev_LateLockResidue ==
+  LET t == TwoDelivery(c) IN
+  t.retried /\ "s" \in DOMAIN t.ctxs /\ t.ctxs["s"].nsel > 0 /\ ~t.ctxs["s"].locked
 Inv_RetrySucceeds ==
   TwoDelivery(c).retried /\ Verdict2(c) = "may_fail" /\ c.stage = "post" /\ ~Dev_LateLockResidue => Predict2(c).res = "ok"
 
